@@ -217,7 +217,7 @@ impl Monitor for C18 {
         }
     }
     fn rule(&self) -> &'static str {
-        "states_*: one case per chunk of seeds s; create(s) + one draw visits generator state 48271*s mod m (a bijection on [1,m-1]); per state: generate() over a 12-pair (min,max) panel (incl. two intervals whose width overflows f32) must be finite and in [min,max], shuffle(len 1) and shuffle(len 2..6) must return a permutation without panicking, states whose unit draw is >= 0.999999 are swept over every len 1..200; distinct = number of distinct states visited. seeds: seed classes (0, 1, small, around m, multiples of m, 2^32, >3.8e14, u64::MAX, timestamps) x lengths 0..200: no panic, permutation (index vectors; vectors with repeated entries and vectors with entries of any magnitude - 64-bit hashes, usize::MAX - k, powers of two up to 2^63: same multiset), purity (same seed twice; same seed while a second generator draws and shuffles in between). clock: Tensor::random's possible clock seeds (subsec_micros in [0,1e6)) replayed through Generator for 256 draws. tensor_random: Tensor::random itself for every rank (extents 1..6; in every eighth request one extent, at any position, is 0: the empty nesting must come back as requested); every third request follows a request for a shape the library refuses (rank 5 / nested), which must not disturb it."
+        "states_*: one case per chunk of seeds s; create(s) + one draw visits generator state 48271*s mod m (a bijection on [1,m-1]); per state: generate() over a 12-pair (min,max) panel (incl. two intervals whose width overflows f32) must be finite and in [min,max], shuffle(len 1) and shuffle(len 2..6) must return a permutation without panicking, states whose unit draw is >= 0.999999 are swept over every len 1..200; distinct = number of distinct states visited. seeds: seed classes (0, 1, small, around m, multiples of m, 2^32, >3.8e14, u64::MAX, timestamps) x lengths 0..200: no panic, permutation (index vectors; vectors with repeated entries and vectors with entries of any magnitude - 64-bit hashes, usize::MAX - k, powers of two up to 2^63: same multiset), one generator object shuffling twelve vectors of changing length in turn, purity (same seed twice; same seed while a second generator draws and shuffles in between). clock: Tensor::random's possible clock seeds (subsec_micros in [0,1e6)) replayed through Generator for 256 draws. tensor_random: Tensor::random itself for every rank (extents 1..6; in every eighth request one extent, at any position, is 0: the empty nesting must come back as requested); every third request follows a request for a shape the library refuses (rank 5 / nested), which must not disturb it."
     }
     fn assumptions(&self) -> Vec<&'static str> {
         vec![
@@ -275,6 +275,32 @@ impl Monitor for C18 {
                     }
                 }
                 out.count("shuffles_of_vectors_with_repeated_or_large_entries", 66);
+                // ONE generator object shuffling vectors of changing length (training indices,
+                // then validation indices, ...): every call must return a permutation
+                {
+                    let lens: Vec<usize> = (0..12).map(|_| *rng.pick(&[0usize, 1, 2, 3, 4, 7, 10, 33, 64, 65, 200])).collect();
+                    let r = guard(|| {
+                        let mut g = Generator::create(s);
+                        for (k, len) in lens.iter().enumerate() {
+                            let input: Vec<usize> = (0..*len).map(|i| i * 3 + k).collect();
+                            let mut v = input.clone();
+                            g.shuffle(&mut v);
+                            let _ = g.generate(0.0, 1.0);
+                            let mut sorted = v.clone();
+                            sorted.sort();
+                            if sorted != input {
+                                return Some((k, *len));
+                            }
+                        }
+                        None
+                    });
+                    out.count("generators_reused_for_shuffles_of_changing_length", 1);
+                    match r {
+                        Ok(None) => {}
+                        Ok(Some((k, len))) => out.viol("shuffle:reused-generator:not-a-permutation", format!("seed {}: call {} of one generator over lengths {:?} (length {}) did not return a permutation", s, k + 1, lens, len), J::Null),
+                        Err(m) => out.viol(&format!("shuffle:reused-generator:panic:{}", classify_panic(&m)), format!("seed {}: one generator shuffling vectors of lengths {:?} in turn panicked: {}", s, lens, short(&m, 160)), J::Null),
+                    }
+                }
                 let pure = guard(|| {
                     let mut a = Generator::create(s);
                     let mut b = Generator::create(s);
